@@ -92,6 +92,17 @@ func toBalances(b [][2]*big.Int) channel.Balances {
 // Open opens the ledger channel: party `by` proposes, the other accepts inside
 // its proposal handler.
 func (pr *Pair) Open(by int, assets []uint64, init, fund [][2]*big.Int, challenge uint64, app channel.App, data channel.Data) error {
+	chs, err := pr.OpenLedger(by, assets, init, fund, challenge, app, data)
+	if err != nil {
+		return err
+	}
+	pr.Ch = chs
+	return nil
+}
+
+// OpenLedger opens a further ledger channel between the two parties and
+// returns the handles (indexed by party).
+func (pr *Pair) OpenLedger(by int, assets []uint64, init, fund [][2]*big.Int, challenge uint64, app channel.App, data channel.Data) (chs [2]*client.Channel, _ error) {
 	pr.Assets = assets
 	ctx, cancel := context.WithTimeout(context.Background(), HangLimit)
 	defer cancel()
@@ -138,22 +149,22 @@ func (pr *Pair) Open(by int, assets []uint64, init, fund [][2]*big.Int, challeng
 		MakeAlloc(assets, ib),
 		[]map[wallet.BackendID]wire.Address{pr.P[by].WireAddr, pr.P[other].WireAddr}, opts...)
 	if err != nil {
-		return errors.WithMessage(err, "creating proposal")
+		return chs, errors.WithMessage(err, "creating proposal")
 	}
 	ch, err := pr.P[by].Client.ProposeChannel(ctx, prop)
 	if err != nil {
-		return errors.WithMessage(err, "proposer")
+		return chs, errors.WithMessage(err, "proposer")
 	}
 	select {
 	case r := <-got:
 		if r.err != nil {
-			return errors.WithMessage(r.err, "responder")
+			return chs, errors.WithMessage(r.err, "responder")
 		}
-		pr.Ch[by], pr.Ch[other] = ch, r.ch
+		chs[by], chs[other] = ch, r.ch
 	case <-ctx.Done():
-		return errors.New("responder did not finish opening (hang limit)")
+		return chs, errors.New("responder did not finish opening (hang limit)")
 	}
-	return nil
+	return chs, nil
 }
 
 // Idx returns the channel index of party p in channel ch.
